@@ -217,9 +217,20 @@ impl Interp {
                     self.cells.push(c.clone());
                     e = e.push(Slot::Cell(c, name.clone()));
                 }
+                // Definitions that are values as written (functions in particular) are available to the
+                // whole group; the computed ones are evaluated in order.
+                let is_value = |d: &M| matches!(d, M::Lam(..) | M::Pi(..) | M::Type | M::Int | M::Bool | M::True | M::False | M::Lit(_));
                 for (i, (_, _, d)) in ds.iter().enumerate() {
-                    let v = self.eval(&e, d)?;
-                    *cells[i].borrow_mut() = Some(v);
+                    if is_value(d) {
+                        let v = self.eval(&e, d)?;
+                        *cells[i].borrow_mut() = Some(v);
+                    }
+                }
+                for (i, (_, _, d)) in ds.iter().enumerate() {
+                    if !is_value(d) {
+                        let v = self.eval(&e, d)?;
+                        *cells[i].borrow_mut() = Some(v);
+                    }
                 }
                 self.eval(&e, body)?
             }
